@@ -996,6 +996,13 @@ class VerbatimEnvironment(NoCharSubEnvironment):
         # for an end without groupings (i.e. \endverbatim)
         endpattern2 = list(r'%send%s' % (escape, name))
 
+        # Only the end marker that matches the way we were invoked
+        # ends the environment; the other one is ordinary content
+        if self.macroMode == Environment.MODE_NONE:
+            endpattern = endpattern2
+        else:
+            endpattern2 = endpattern
+
         endlength = len(endpattern)
         endlength2 = len(endpattern2)
         # Iterate through tokens until the endpattern is found
